@@ -161,6 +161,16 @@ def run (ts : List String) : Option String :=
     pure ("x" ++ hexEncode (Lib.Utf8.encode (Lib.C14n.c14nText cs)) ++ " x" ++ hexEncode (Lib.Utf8.encode (Lib.C14n.c14nAttr cs)) ++
       " x" ++ hexEncode (Lib.Utf8.encode (Lib.C14n.signerText cs)) ++ " x" ++ hexEncode (Lib.Utf8.encode (Lib.C14n.signerAttr cs)) ++
       (if Lib.C14n.textClean cs then " 1" else " 0") ++ (if Lib.C14n.attrClean cs then " 1" else " 0"))
+  | ["byteidx", a, b] => do
+    -- strings.Index(s, c) for a one-character ASCII c, then s[:i] and s[i:] (when i >= 0) and strings.Contains
+    let (s, _) ← (dec [a] : Option (String × _))
+    let (cs, _) ← (dec [b] : Option (String × _))
+    match cs.toList with
+    | [c] =>
+      let i := indexChar s c
+      if i < 0 then pure (toString i ++ " " ++ (if s.toList.contains c then "1" else "0"))
+      else pure (toString i ++ " " ++ (if s.toList.contains c then "1" else "0") ++ " " ++ " ".intercalate (enc (byteTake s i) ++ enc (byteDrop s i)))
+    | _ => none
   | ["qesc", t] => do
     let (s, _) ← (dec [t] : Option (String × _))
     pure (" ".intercalate (enc (queryEscape s)))
